@@ -120,7 +120,7 @@ def _code(v):
 
 NV = 4
 ND = 3
-NR = 3
+NR = 4
 
 
 def _dataset(d):
@@ -187,6 +187,12 @@ def make_results(v, r, rt):
     cov = pd.DataFrame([[1.0, 0.5], [0.5, 2.0 + v]], index=names[:2], columns=names[:2])
     ie = pd.DataFrame({'ETA_1': [0.1, -0.1], 'ETA_2': [0.0, 0.3]}, index=pd.Index([1, 2], name='ID'))
     log = Log((LogEntry(category='WARNING', message=rt, time=_T0),))
+    if r == 3:
+        # a log with many entries (entry order must survive the JSON round trip; 10+ entries have
+        # multi-digit positions)
+        n = [2, 3, 10, 11, 12, 25][(len(rt) + v) % 6]
+        cats = ['WARNING', 'ERROR', 'INFORMATION']
+        log = Log(tuple(LogEntry(category=cats[(i + v) % 3], message=f'{rt}#{i}', time=_T0 + datetime.timedelta(seconds=7 * i)) for i in range(n)))
     return ModelfitResults(
         ofv=101.25 + v, parameter_estimates=pe, minimization_successful=False, covariance_matrix=cov,
         individual_estimates=ie, warnings=[rt, 'w2'], termination_cause='rounding_errors', log=log,
@@ -1742,11 +1748,11 @@ def _conc_strategy():
 
 
 SUBCHECKS = [
-    SubCheck('faithful', _faithful_strategy, run_case, quick=224, thorough=6000, quick_time=400.0, describe='fault-free workloads with adversarial text'),
+    SubCheck('faithful', _faithful_strategy, run_case, quick=224, thorough=1730, quick_time=400.0, describe='fault-free workloads with adversarial text'),
     SubCheck(
-        'faults', _sampled_strategy, run_fault, quick=64, thorough=3200, enumerate=enum_faults, quick_time=600.0, thorough_time=3000.0,
+        'faults', _sampled_strategy, run_fault, quick=64, thorough=490, enumerate=enum_faults, quick_time=600.0, thorough_time=3000.0,
         describe='every operation k of the enumerated workloads in mode crash (+ torn writes) and enospc; plus generated workloads with a sampled fault point',
     ),
-    SubCheck('concurrent_annotations', _conc_strategy, run_concurrent_annotations, quick=160, thorough=4000, describe='two writers of one annotations file, schedule owned at file-system-call granularity'),
+    SubCheck('concurrent_annotations', _conc_strategy, run_concurrent_annotations, quick=160, thorough=1240, describe='two writers of one annotations file, schedule owned at file-system-call granularity'),
     SubCheck('sim_vs_kill', None, run_sim_vs_kill, quick=0, thorough=0, enumerate=enum_sim_vs_kill, describe='simulation vs forked child killed by os._exit'),
 ]
